@@ -139,13 +139,26 @@ CLAIMS["C18"] = {
             "rules beyond the property's list (quantis with lambda_-1, gromacs input_path) may reject without alarm",
     "technique": TECH,
 }
+CLAIMS["C17"] = {
+    "level": "other",
+    "text": "Partial (step arithmetic of scheduler/loop/initiate with the real REPEX_state; the asyncio runner is outside). With symbolic "
+            "step count and restart point, 1..3 workers and every completion order, the solver shows: exactly `remaining` moves are "
+            "treated and exactly as many jobs submitted, the final step counter equals steps, no job is in flight at runner.stop(), "
+            "every result is consumed exactly once, the loop never polls an empty future list, the step counter in every captured "
+            "restart file equals the completed moves; continuing from the final restart file with a larger symbolic step count, and "
+            "restarting after a death with jobs in flight, satisfy the same counts.",
+    "design_ref": "DESIGN.md section 3 C17 (H17)",
+    "note": "remaining steps >= workers; fake runner/futures (any outstanding job completes next); aiorunner/future_list exactly-once "
+            "delivery under all timings is a concurrency property outside this technique; HRX stubs",
+    "technique": TECH,
+}
 PENDING = "check not built yet in this revision (see DESIGN.md for the plan); no claim is made"
 NOT_APPLICABLE = {
     "C01": "statistical convergence of a whole stochastic sampler: no bounded symbolic encoding; its algebraic obligations are decided under C02/C04/C09/C10/C11",
     "C08": "quantifies over crash positions in a trace of OS file-system effects and the outcome of TOML/path parsers on truncated trees: not symbolically executable with the installed tools (fault enumeration is a different technique family)",
     "C19": "every clause is a round trip through C-level text/binary codecs (str.format/float, struct, re, genfromtxt): not executable on symbolic data here",
 }
-for _p in ["C12", "C13", "C16", "C17", "C20"]:
+for _p in ["C12", "C13", "C16", "C20"]:
     if _p not in CLAIMS:
         NOT_APPLICABLE[_p] = PENDING
 NOTES = ("All checks: exit 0 held within the stated bounds; exit 1 + VIOLATION line only for a counterexample that was replayed "
